@@ -405,9 +405,11 @@ Definition mon_step (m : mon) (x : op) (o : obs) : mon :=
                 let drained := if m_mode r =? 0 then consumed r =? npub m else m_cur r =? npub m + 1 in
                 set_sub m s (mkSr true (m_mode r) PIdle (m_start r) (m_cur r) (m_deliv r) true
                                   (m_kicked r || m_lost r || (m_closed m && drained)) (m_kicked r) (m_lost r))
-              else
-                set_sub m s (mkSr true (m_mode r) PIdle (m_start r) (m_cur r)
-                                  ((o_c o, o_b o, npub m) :: m_deliv r) false (m_eos_ok r) (m_kicked r) (m_lost r))
+              else   (* a value: recorded; a kicked subscriber must get end of stream instead *)
+                add_bad (set_sub m s (mkSr true (m_mode r) PIdle (m_start r) (m_cur r)
+                                           ((o_c o, o_b o, npub m) :: m_deliv r) false (m_eos_ok r) (m_kicked r)
+                                           (m_lost r)))
+                        (m_kicked r)
           | _ => set_viol m
           end
       | None => set_viol m
